@@ -133,7 +133,7 @@ Proof.
   assert (Sym : forall x y, spec_symbol x = Some (t, y) -> False).
   { intros x y Hs. destruct (spec_symbol_inv _ _ _ Hs) as (z & _ & _ & -> & _). discriminate Hq. }
   assert (Num : forall x y, spec_number x = Some (t, y) -> False).
-  { intros x y Hs. unfold spec_number in Hs. destruct (num_run (is_hex_prefix x) false x) as [run rs].
+  { intros x y Hs. unfold spec_number in Hs. destruct (num_split x) as [run rs].
     destruct (spec_numeral run) as [[n d]|]; [|discriminate]. inversion Hs; subst. discriminate Hq. }
   assert (Lc : forall x y, line_comment x = Some (t, y) -> False).
   { intros x y Hs. unfold line_comment in Hs. destruct (span _ x). inversion Hs; subst. discriminate Hq. }
@@ -273,7 +273,7 @@ Proof.
   assert (Sym : forall x y, spec_symbol x = Some (t, y) -> s_kind t <> SKeyword).
   { intros x y Hs. destruct (spec_symbol_inv _ _ _ Hs) as (z & _ & _ & -> & _). discriminate. }
   assert (Num : forall x y, spec_number x = Some (t, y) -> s_kind t <> SKeyword).
-  { intros x y Hs. unfold spec_number in Hs. destruct (num_run (is_hex_prefix x) false x) as [run rs].
+  { intros x y Hs. unfold spec_number in Hs. destruct (num_split x) as [run rs].
     destruct (spec_numeral run) as [[n d]|]; [|discriminate]. inversion Hs; subst. discriminate. }
   assert (Lc : forall x y, line_comment x = Some (t, y) -> s_kind t <> SKeyword).
   { intros x y Hs. unfold line_comment in Hs. destruct (span _ x). inversion Hs; subst. discriminate. }
